@@ -1,5 +1,5 @@
 """Property -> rule composition.  Each function decides the statically decidable clauses of one property."""
-from .rules import kdefects, numeric, seed, typestate, ownership, clifford, circuit, stabilizer, adjoint, manifold, gellmann, twins, backend, masks, axes, pauli, convexroof, boundary, measure, relabel, angles
+from .rules import kdefects, numeric, seed, typestate, ownership, clifford, circuit, stabilizer, adjoint, manifold, gellmann, twins, backend, masks, axes, pauli, convexroof, boundary, measure, relabel, angles, shapes
 
 M = 'numqi.'
 DECISION_C05 = ['numqi.entangle.ppt.is_ppt', 'numqi.entangle.ppt.is_generalized_ppt',
@@ -96,6 +96,11 @@ B1_CHANNEL = {'numqi.channel._internal.apply_choi_op#0', 'numqi.channel._interna
               'numqi.utils.get_Renyi_entropy#0', 'numqi.utils.get_fidelity#0', 'numqi.utils.get_purity#0'}
 B1_QEC = {'numqi.qec._varqec.knill_laflamme_loss#0'}
 
+SH1_FUNCS = ['numqi.manifold._stiefel._to_stiefel_euler_real', 'numqi.manifold._stiefel._to_stiefel_euler_complex',
+             'numqi.manifold._internal.to_sphere_coordinate', 'numqi.manifold._internal.to_trace1_psd_cholesky',
+             'numqi.manifold._internal.to_symmetric_matrix', 'numqi.manifold._stiefel.to_stiefel_choleskyL',
+             'numqi.manifold._stiefel.to_stiefel_polar']
+
 MS1_FUNCS = {'numqi.group._lie._so3_to_angle_hf0': ['x00', 'x02', 'x12', 'x20', 'x21', 'x22'],
              'numqi.state._internal.get_Werner_eof': ['alpha'],
              'numqi.state._internal.get_Isotropic_eof': ['alpha']}
@@ -119,8 +124,11 @@ def c01(proj, rep, tier):
     n = twins.tw(proj, rep, MANIFOLD)
     rep.floor('TW twin blocks in the manifold modules (real / complex constructor halves)', n, 3)
     backend.b1(proj, rep, MANIFOLD, expect_match=B1_MANIFOLD)
+    nf, ne = shapes.sh1(proj, rep, SH1_FUNCS)
+    rep.floor('SH1 batched manifold maps whose batch axis is tracked', nf, 7)
+    rep.floor('SH1 array expressions typed with a batch-axis position', ne, 120)
     rep.assume('membership itself (unit norm, PSD, X^dagger X = I, simplex, interval) for all theta is value-level: not decided; '
-               'known blind spots: ball map formula, Euler-map batch broadcast, float32 conditioning')
+               'known blind spots: float32 conditioning, formulas whose error keeps shapes, parity and backend agreement')
 
 
 def c02(proj, rep, tier):
@@ -193,7 +201,9 @@ def c03(proj, rep, tier):
     n = circuit.u1(proj, rep)
     rep.floor('U1 to_unitary', n, 1)
     n = relabel.r1(proj, rep)
-    rep.floor('R1 leg-relabelling contractions', n, 6)
+    rep.floor('R1 leg-relabelling contractions', n, 7)
+    n = circuit.d5(proj, rep)
+    rep.floor('D5 target-order assignments in the Circuit builders', n, 5)
     backend.b1(proj, rep, ['numqi.gate._internal'], expect_match=B1_GATE)
     n = ownership.o2(proj, rep)
     rep.floor('O2 cached functions examined', n, 20)
@@ -212,7 +222,7 @@ def c04(proj, rep, tier):
     n = adjoint.d1(proj, rep)
     rep.floor('D1/A1/A3 circuit sweep obligations', n, 17)
     n = relabel.r1(proj, rep)
-    rep.floor('R1 leg-relabelling contractions (op_grad legs)', n, 6)
+    rep.floor('R1 leg-relabelling contractions (op_grad legs)', n, 7)
     backend.b1(proj, rep, ['numqi.gate._internal'], expect_match=B1_GATE)
     n = twins.tw(proj, rep, ['numqi.sim.state', 'numqi.sim._torch_utils', 'numqi._torch_op', 'numqi.qec._internal'])
     rep.floor('TW twin blocks in the backward helpers (grad / conj halves of the op_grad contraction)', n, 2)
@@ -293,7 +303,7 @@ def c20(proj, rep, tier):
 
 
 def dev(proj, rep, tier):
-    print(kdefects.rd1(proj, rep, None))
+    pass
 
 
 PROPS = {'C01': c01, 'C02': c02, 'C06': c06, 'C08': c08, 'C13': c13, 'C12': c12, 'C15': c15, 'C16': c16, 'C03': c03, 'C04': c04, 'C05': c05, 'C07': c07, 'C19': c19, 'C10': c10, 'C11': c11, 'C18': c18, 'C20': c20, 'DEV': dev}
